@@ -65,6 +65,50 @@ def _cancel(r, simp, tier):
     r.sample({"chain": ex["text"], "after_cancellation": ex["out_text"]})
 
 
+def _template(text, ids):
+    """P4: a substitution text -> template record; self-inverse shapes are recognised syntactically"""
+    import re
+    t = text.strip()
+    m = re.fullmatch(r"\{a(\d): -a\1\}", t)
+    if m:
+        return {"t": "neg", "j": int(m.group(1)), "c": 1}
+    m = re.fullmatch(r"\{a(\d): 1/a\1\}", t)
+    if m:
+        return {"t": "inv", "j": int(m.group(1)), "c": 1}
+    m = re.fullmatch(r"\{a(\d): a(\d), a\2: a\1\}", t)
+    if m:
+        return {"t": "swap", "j": 10 * int(m.group(1)) + int(m.group(2)), "c": 1}
+    return {"t": "lost" if t == "nan" else "scale", "j": 0, "c": ids.setdefault(t, len(ids) + 2)}
+
+
+def _concat_law(r, L, name, n):
+    """final map file = Cancel(concatenation of the round files), row by row (bookkeeping law)"""
+    import numpy as np
+    nf = len(L.all_eq)
+    rounds = []
+    k = 0
+    while os.path.exists(os.path.join(L.dir, "inv_subs_%d_round_%d.txt" % (n, k))):
+        rows = [[e for e in row if e.strip()] for row in csv.reader(open(os.path.join(L.dir, "inv_subs_%d_round_%d.txt" % (n, k))), delimiter=";")]
+        idxf = os.path.join(L.dir, "inv_idx_%d_round_%d.txt" % (n, k))
+        idx = [int(x) for x in open(idxf).read().split()]
+        per = [[] for _ in range(nf)]
+        if len(idx) != len(rows):
+            r.violation("rounds:%s:n%d:round%d" % (name, n, k), "round %d: %d indices but %d map rows" % (k, len(idx), len(rows)), {"runname": name, "n": n})
+        for i, row in zip(idx, rows):
+            per[i] = row
+        rounds.append(per)
+        k += 1
+    ids, cases = {}, []
+    for i in range(nf):
+        final = [e for e in L.inv_subs[i] if e.strip()]
+        pieces = [rd[i] for rd in rounds]
+        # rounds are only written for the rounds this run performed: stale files of an earlier run with more rounds are not read by the code either
+        unmerged = (not final) and any(pieces) and L.uniq[L.matches[i]] == L.all_eq[i]
+        cases.append({"id": i, "kind": "concat", "rounds": [[_template(e, ids) for e in p] for p in pieces], "final": [_template(e, ids) for e in final],
+                      "unmerged": bool(unmerged), "text": pieces, "final_text": final})
+    return cases
+
+
 def _harvest(r, s, tier):
     """every distinct substitution text the simplifier really emitted, from the round files of generated libraries"""
     texts = {}
@@ -74,6 +118,13 @@ def _harvest(r, s, tier):
         L, _ = common.gen_library(r, s, name, n)
         if L is None:
             continue
+        cc = _concat_law(r, L, name, n)
+        jres, failed = tlc.judge("SubsJudge", cc, heap="8g")
+        r.add_tlc(jres, "concat_%s_n%d" % (name, n))
+        for i, cl in sorted(failed.items())[:5]:
+            r.violation("concat:%s:n%d:line%d" % (name, n, i), "function %d: final map row %s is not Cancel(concatenated round rows %s): %s" % (i, cc[i]["final_text"], cc[i]["text"], cl),
+                        {"runname": name, "n": n, "line": i})
+        r.add("concat_law", evaluations=len(cc), nontrivial=sum(1 for c in cc if sum(len(p) for p in c["rounds"]) > len(c["final"])), traces=1)
         for f in sorted(glob.glob(os.path.join(L.dir, "inv_subs_%d_round_*.txt" % n))) + [os.path.join(L.dir, "inv_subs_%d.txt" % n)]:
             for row in csv.reader(open(f), delimiter=";"):
                 for el in row:
